@@ -43,7 +43,7 @@ def c36Step (line : String) : String :=
                              har := fun _ => ([], true) }
       if (sniff b).1 then "har"
       else
-        let r := readAll (gated env) b
+        let r := readAll (converted env) b
         let tr := gateTrace m d (if oc = "-" then [] else oc.toList) 0 b
         toString r.1.length ++ " " ++ showEnd r.2 ++ " " ++ (if tr.isEmpty then "-" else String.ofList tr)
     | _, _, _ => "bad-op"
